@@ -72,7 +72,7 @@ func ruleC20(c *Check) {
 	c.mapRanges(fs)
 	c.panicInventory(fs, r)
 	c.mutateWhileIterating()
-	c.priceNonEmpty(fs)
+	c.priceNonEmpty("C20.3", fs)
 	c.coinsSubSites(fs)
 	// the pricing indexed while a request is built exists: requests are built only for the providers the filter admitted
 	// (providers with a stored binding, whose pricing is stored with it), never for the consumer's raw list
@@ -651,7 +651,7 @@ func batchStartListNonEmpty(call *Term) bool {
 // Price of a stored pricing, which must therefore never be empty: every pricing that is stored comes from the
 // pricing parser (C15.6), and every success path of the parser yields a one-element literal or NewCoins of a
 // coin known to be non-zero (NewCoins drops zero coins).
-func (c *Check) priceNonEmpty(fs []*Func) {
+func (c *Check) priceNonEmpty(rule string, fs []*Func) {
 	gPricing := c.getterByFamily("0x06")
 	parser := c.P.FuncNamed(c.nParsePricing())
 	sites := 0
@@ -672,7 +672,7 @@ func (c *Check) priceNonEmpty(fs []*Func) {
 						ok = true
 					}
 				}
-				c.req(ok, "C20.3", unitConstruct(f, "index:GetDenomByIndex"), ev.Pos, "GetDenomByIndex is applied to the Price of a stored (parser-produced) pricing: "+shortTerm(x))
+				c.req(ok, rule, unitConstruct(f, "index:GetDenomByIndex"), ev.Pos, "GetDenomByIndex is applied to the Price of a stored (parser-produced) pricing: "+shortTerm(x))
 			}
 		}
 	}
@@ -680,7 +680,7 @@ func (c *Check) priceNonEmpty(fs []*Func) {
 		return
 	}
 	if parser == nil {
-		c.undecided("C20.3", "pricing-parser", token.NoPos, "pricing parser not found")
+		c.undecided(rule, "pricing-parser", token.NoPos, "pricing parser not found")
 		return
 	}
 	n := 0
@@ -703,7 +703,7 @@ func (c *Check) priceNonEmpty(fs []*Func) {
 			problems = append(problems, "Price = "+shortTerm(price))
 		}
 	}
-	c.req(n >= 1 && len(problems) == 0, "C20.3", unitConstruct(parser, "price-non-empty"), parser.Body.Pos(),
+	c.req(n >= 1 && len(problems) == 0, rule, unitConstruct(parser, "price-non-empty"), parser.Body.Pos(),
 		fmt.Sprintf("every success path of the pricing parser yields a non-empty Price (%d paths)", n)+condStr(len(problems) > 0, ": "+strings.Join(uniq(sortStrings(problems)), "; ")))
 }
 
